@@ -99,6 +99,22 @@ int main(int argc, char **argv) {
         check_pitch(I, s.family, key + (bend - 8192) / 8192.0 * r2, w, o, lastf, false);
         if(i % 97 == 0) o.sample = w; if(!o.bad) o.nontrivial = true; };
       fams.push_back(F); }
+    { // the statement quantifies over every key-on and re-pitch, whatever else lives in the process: a second handle of the OTHER chip family (its own clock) is created / reset around the observed one's notes
+      en::Family F; F.name = "other_family_handle_alive"; F.count = 2 * 128 * 3; F.chunk = 16; F.budget_s = 60; F.describe = "chip family {OPN2, OPNA} x key 0..127 x order {other-family handle created before, created after the observed handle's setup, reset between the observed handle's key-on and its bend}: key-on, bend up, bend down on the observed handle and a key-on on the other handle are each compared with their own family's formula";
+      F.run = [](uint64_t i, en::CaseOut &o) { Sweep s; s.family = (int)(i % 2); s.range = 2; s.offset = 2; s.chan = 0; int key = (int)((i / 2) % 128); int order = (int)(i / 256); Sweep t = s; t.family = 1 - s.family;
+        pl::Instance A, B; char w[200]; double lf = -1;
+        if(order == 0) { if(!setup(B, t, 0)) { o.fail("C10/harness", "setup"); return; } }
+        if(!setup(A, s, 0)) { o.fail("C10/harness", "setup"); return; }
+        if(order != 0) { if(!setup(B, t, 0)) { o.fail("C10/harness", "setup"); return; } }
+        if(opn2_rt_noteOn(A.dev, 0, (OPN2_UInt8)key, 100) != 1) { o.fail("C10/note-rejected", "note-on rejected"); return; }
+        snprintf(w, sizeof w, "%s key %d key-on with a live %s handle (order %d)", s.family ? "OPNA" : "OPN2", key, t.family ? "OPNA" : "OPN2", order); check_pitch(A, s.family, key, w, o, lf, false); if(o.bad) return;
+        if(order == 2) opn2_reset(B.dev);
+        if(opn2_rt_noteOn(B.dev, 0, (OPN2_UInt8)key, 100) != 1) { o.fail("C10/note-rejected", "note-on rejected"); return; }
+        snprintf(w, sizeof w, "%s key %d key-on on the second handle (order %d)", t.family ? "OPNA" : "OPN2", key, order); lf = -1; check_pitch(B, t.family, key, w, o, lf, false); if(o.bad) return;
+        opn2_rt_pitchBend(A.dev, 0, 12288); snprintf(w, sizeof w, "%s key %d bend +1 semitone after the %s handle played (order %d)", s.family ? "OPNA" : "OPN2", key, t.family ? "OPNA" : "OPN2", order); lf = -1; check_pitch(A, s.family, key + 1.0, w, o, lf, false); if(o.bad) return;
+        opn2_rt_pitchBend(B.dev, 0, 4096); snprintf(w, sizeof w, "%s key %d bend -1 semitone on the second handle (order %d)", t.family ? "OPNA" : "OPN2", key, order); lf = -1; check_pitch(B, t.family, key - 1.0, w, o, lf, false); if(o.bad) return;
+        if(i % 97 == 0) o.sample = w; o.units = 4; o.nontrivial = true; };
+      fams.push_back(F); }
     { en::Family F; F.name = "drum_key"; F.count = 2 * 127 * 3; F.chunk = 16; F.budget_s = 60; F.describe = "percussion channel: drum key 1..127 fixes the pitch whatever MIDI key {35,60,100} is played, OPN2/OPNA";
       F.run = [](uint64_t i, en::CaseOut &o) { Sweep s; s.family = (int)(i % 2); s.range = 2; s.offset = 2; s.chan = 9; int dk = 1 + (int)((i / 2) % 127); static const int KEYS[] = {35, 60, 100}; int key = KEYS[i / 254];
         pl::Instance I; if(!setup(I, s, dk)) { o.fail("C10/harness", "setup failed"); return; } double lastf = -1; char w[120];
